@@ -177,6 +177,9 @@ def run(ctx):
         from harness.common import run_demo
         run_demo(ctx, 'demo_learnterm.py', ['--n', 150 if ctx.tier == 'quick' else 2000, '--seed', ctx.seed], 'c05-loop-vs-queue-machine',
                  'the real learn_spn loop against the Lean queue machine (halts within the proved bound B, iteration count = runCount, same structure)', env_extra=None)
+        if ctx.n_new() == 0:
+            run_demo(ctx, 'demo_tr3.py', [1 + ctx.seed], 'c05-code-vs-generated-vs-model',
+                     'split_rows_clusters / learn_spn task records vs generated definitions vs the queue machine', env_extra=dict(DEMO_SECTIONS='b'))
 
 
 def replay(rep):
